@@ -5,7 +5,6 @@ import (
 	"go/ast"
 	"go/scanner"
 	"go/token"
-	"os"
 	"sort"
 	"strings"
 
@@ -209,7 +208,7 @@ func SiblingGroups(p *Prog, pk *packages.Package, fileSuffix string) ([]*Sibling
 		return nil, fmt.Errorf("file %s not found in %s", fileSuffix, pk.PkgPath)
 	}
 	tf := p.Fset.File(file.Pos())
-	src, err := os.ReadFile(tf.Name())
+	src, err := p.Source(tf.Name())
 	if err != nil {
 		return nil, err
 	}
